@@ -95,8 +95,9 @@ func checkParserPrimitives(p *Prog, l *Ledger, rule string) bool {
 		"check": {"end": `test\(` + eof + `\)→true ; return\(false\)`,
 			"cmp": `test\(` + eof + `\)→false ; ` + q("return((a1 == TOKS[POS].Type))")},
 		"consume": {"ok": `test\(` + eof + `\)→false ; ` + q("test((a1 == TOKS[POS].Type))→true ; fieldstore(POS, (POS + 1)) ; return(TOKS[POS], nil)"),
-			"err": `test\(` + eof + `\)→(true|false ; ` + q("test((a1 == TOKS[POS].Type))→false") + `) ; ` + q("call(parser.(*Parser).error, p, TOKS[POS], a2) ; return(") + `(obj\S*|\?), ` + q("error(p,TOKS[POS],a2))")},
-		"error": {"report": q("call(utils.GlobalErrorToken, a1, a2) ; return(Errorf(a2))")},
+			"err": `test\(` + eof + `\)→(true|false ; ` + q("test((a1 == TOKS[POS].Type))→false") + `) ; ` + `call\(parser\.\(\*Parser\)\.error, (p, )?` + q("TOKS[POS], a2) ; return(") + `(obj\S*|\?), error\((p,)?` + q("TOKS[POS],a2))")},
+		// (as a method: token a1, message a2; as a plain function the same two are its first and second parameter)
+		"error": {"report": `(` + q("call(utils.GlobalErrorToken, a1, a2) ; return(Errorf(a2))") + `|` + q("call(utils.GlobalErrorToken, p, a1) ; return(Errorf(a1))") + `)`},
 	}
 	okAll := true
 	if parserCursor(p) == nil {
